@@ -157,10 +157,32 @@ def run(ctx, chk, tier="quick"):
     if inner is None or outer is None:
         chk.indeterminate("C12.O2", where_of(f, y), "expected the yield inside `for pair: for target:`")
         return
-    if not isinstance(outer.target, ast.Name) or not isinstance(inner.target, ast.Name):
-        chk.indeterminate("C12.O2", where_of(f, outer), "loop targets are not simple names")
+    # the pair loop: `for i in range(len(R) - 1)` or `for i, (s, t) in enumerate(zip(R[:-1], R[1:]))`
+    elem_sym = {}
+    ivar = None
+    if isinstance(outer.target, ast.Name):
+        ivar = outer.target.id
+    elif isinstance(outer.target, ast.Tuple) and len(outer.target.elts) == 2 and isinstance(outer.target.elts[0], ast.Name) \
+            and isinstance(outer.iter, ast.Call) and isinstance(outer.iter.func, ast.Name) and outer.iter.func.id == "enumerate" \
+            and len(outer.iter.args) == 1 and not outer.iter.keywords:
+        tv, seq = outer.target.elts[1], outer.iter.args[0]
+        if isinstance(tv, (ast.Tuple, ast.List)) and isinstance(seq, ast.Call) and isinstance(seq.func, ast.Name) and seq.func.id == "zip" \
+                and len(seq.args) == len(tv.elts) and all(isinstance(t, ast.Name) for t in tv.elts):
+            ok_ = True
+            for t, a in zip(tv.elts, seq.args):
+                # R[k:] or R[k:-m]: element i is R[i + k]
+                if isinstance(a, ast.Subscript) and isinstance(a.value, ast.Name) and isinstance(a.slice, ast.Slice) and a.slice.step is None \
+                        and (a.slice.lower is None or (isinstance(a.slice.lower, ast.Constant) and a.slice.lower.value in (0, 1))):
+                    elem_sym[t.id] = "%s@%d" % (a.value.id, a.slice.lower.value if a.slice.lower is not None else 0)
+                else:
+                    ok_ = False
+            if ok_:
+                ivar = outer.target.elts[0].id
+            else:
+                elem_sym = {}
+    if ivar is None or not isinstance(inner.target, ast.Name):
+        chk.indeterminate("C12.O2", where_of(f, outer), "the loop over pairs is neither `for i in range(...)` nor `for i, (a, b) in enumerate(zip(R[:-1], R[1:]))`")
         return
-    ivar = outer.target.id
     tvar = inner.target.id
     # yielded level is the target variable
     lvl = y.value.elts[0]
@@ -174,6 +196,8 @@ def run(ctx, chk, tier="quick"):
     keep = {ivar}
 
     def sym_of(node):
+        if isinstance(node, ast.Name) and node.id in elem_sym:
+            return elem_sym[node.id]
         if isinstance(node, ast.Subscript) and isinstance(node.value, ast.Name):
             try:
                 idx = py_poly(node.slice)
@@ -192,6 +216,7 @@ def run(ctx, chk, tier="quick"):
         s = sym_of(node)
         if s and is_ancestor(outer, node):
             bases.add(s.split("@")[0])
+    bases |= {v.split("@")[0] for v in elem_sym.values()}
     # candidate rounded arrays: bases whose definition involves a rounding call
     rounded = {}
     for b in sorted(bases):
@@ -390,16 +415,39 @@ def run(ctx, chk, tier="quick"):
                     return None
             return None
 
+        a = flow.expand(a, keep={px, ivar}) if a is not None else a       # through temporaries
+        b = flow.expand(b, keep={px, ivar}) if b is not None else b
         ia, ib = xidx(a), xidx(b)
         i0, i1 = Poly.atom(ivar), Poly.atom(ivar) + Poly.const(1)
         ok = ia is not None and ib is not None and {ia.key(), ib.key()} == {i0.key(), i1.key()}
-        chk.ob("C12.O3", ok, where_of(f, c),
+        if ia is None or ib is None:
+            chk.indeterminate("C12.O3", where_of(f, c), "bracket [%s, %s] is not a pair of elements of the abscissa array" % (
+                ast.unparse(a)[:40] if a is not None else "?", ast.unparse(b)[:40] if b is not None else "?"))
+        else:
+          chk.ob("C12.O3", ok, where_of(f, c),
                "bracket = [%s, %s]" % (ast.unparse(a) if a is not None else "?", ast.unparse(b) if b is not None else "?"),
                "[x[i], x[i+1]] for the pair index i that produced the targets",
                key="regrid|bracket", why="a bracket from another pair puts the crossing between the wrong samples")
         # function: interpolant(x) - target
         okf = False
         desc = ast.unparse(fa)[:100] if fa is not None else "?"
+        # a local `def g(x, t): return spline(x) - t` passed with args=(target,) is the same thing as the lambda
+        extra_args = kw.get("args")
+        body_ = None
+        if isinstance(fa, ast.Name):
+            for d_ in ast.walk(f.node):
+                if isinstance(d_, ast.FunctionDef) and d_ is not f.node and d_.name == fa.id:
+                    stmts_ = [b_ for b_ in d_.body if not (isinstance(b_, ast.Expr) and isinstance(b_.value, ast.Constant))]
+                    if len(stmts_) == 1 and isinstance(stmts_[0], ast.Return) and stmts_[0].value is not None and not d_.args.defaults:
+                        pn_ = [x.arg for x in d_.args.args]
+                        xa_ = list(extra_args.elts) if isinstance(extra_args, ast.Tuple) else ([] if extra_args is None else None)
+                        if xa_ is not None and len(pn_) == 1 + len(xa_):
+                            fa = ast.Lambda(args=ast.arguments(posonlyargs=[], args=[ast.arg(arg=pn_[0])] + [ast.arg(arg=q) for q in pn_[1:]],
+                                                               kwonlyargs=[], kw_defaults=[], defaults=xa_), body=stmts_[0].value)
+                            desc = "def %s(%s): return %s ; args=%s" % (d_.name, ", ".join(pn_), ast.unparse(stmts_[0].value)[:60],
+                                                                          ast.unparse(extra_args) if extra_args is not None else "()")
+        if not isinstance(fa, ast.Lambda):
+            chk.indeterminate("C12.O3", where_of(f, c), "the function handed to brentq (%s) is neither a lambda nor a one-line local function" % desc)
         if isinstance(fa, ast.Lambda):
             largs = fa.args
             pnames = [x.arg for x in largs.args]
@@ -436,7 +484,8 @@ def run(ctx, chk, tier="quick"):
                         except (NotAlgebraic, IndexError):
                             lhs_is_interp = False
                 okf = rhs_is_target and lhs_is_interp
-        chk.ob("C12.O3", okf, where_of(f, c), "root function = %s" % desc,
+        if isinstance(fa, ast.Lambda):
+          chk.ob("C12.O3", okf, where_of(f, c), "root function = %s" % desc,
                "interp1d(x, y / y_step)(x) - target",
                key="regrid|root-function", why="solving another equation does not locate the crossing of that level")
         # yielded position is the root
